@@ -172,6 +172,11 @@ class Pending:
             self.entries = json.load(open(path))
         for e in self.entries:
             self.active[e["signature"]] = e
+        # findings recorded in /verif/known_findings.json (kind=finding) for this property are always active: they are
+        # reported through ctx.violation, which prints the KNOWN-FINDING line and does not fail the check
+        for e in vlib.known_findings():
+            if e.get("property") == (prop or ctx.prop) and e.get("kind") == "finding":
+                self.active[e["signature"]] = {"signature": e["signature"], "what": e.get("what", ""), "patch": "none", "known_finding": True}
 
     def resolve(self, exes, canon=None):
         """exes: {"lex": exe, "parse": exe, "eval": exe}; deactivates the entries whose witness is repaired"""
@@ -202,6 +207,11 @@ class Pending:
         return any(s.startswith(prefix) for s in self.active)
 
     def violation(self, sig, replay, no_input=False):
+        if sig in self.active and self.active[sig].get("known_finding"):
+            if sig not in self.hit:
+                self.hit.append(sig)
+                self.ctx.violation(sig, replay, no_input=no_input)  # listed in known_findings.json: prints KNOWN-FINDING
+            return False
         if sig in self.active:
             if sig not in self.hit:
                 self.hit.append(sig)
